@@ -277,6 +277,7 @@ thread_local! {
     static BUILDS_OK: Cell<u64> = const { Cell::new(0) };
     static BUILDS_RETRIED: Cell<u64> = const { Cell::new(0) };
     static PEEL_RETRY: Cell<u64> = const { Cell::new(0) };
+    static SHARD_RETRY: Cell<u64> = const { Cell::new(0) };
     static MAX_ATTEMPTS: Cell<u64> = const { Cell::new(0) };
     static BUILDS_SLOW: Cell<u64> = const { Cell::new(0) };
     static ABANDONED: Cell<u64> = const { Cell::new(0) };
@@ -367,6 +368,9 @@ fn run_func<W: Wd, F>(
         bump(&BUILDS_RETRIED, 1);
         if s.group == "peel-retry" {
             bump(&PEEL_RETRY, 1);
+        }
+        if s.group == "max-shard-retry" {
+            bump(&SHARD_RETRY, 1);
         }
     }
     if attempts > SOFT_ATTEMPTS as u64 {
@@ -767,6 +771,24 @@ fn main() {
         }
     }
 
+    // 3c. sharded builds (4 and 8 shards) under many builder seeds: a few per cent
+    //     of them draw an unbalanced sharding (largest shard > 1.01 x average) and
+    //     must start over with a new seed after rewinding keys and values (release
+    //     builds; c07_counters.sharded_builds_that_retried says how many did)
+    if !debug && lim.max_n > 400_000 {
+        let plan: &[(usize, u64)] = if thorough { &[(200_000, 40), (400_000, 60), (799_999, 20)] } else { &[(200_000, 16), (400_000, 24)] };
+        let vs: Vec<usize> = (0..VARIANTS.len()).filter(|&v| VARIANTS[v].name.contains("FuseLge3Shards") && VARIANTS[v].int_keys).collect();
+        for &(n, seeds) in plan {
+            for seed in 0..seeds {
+                let v = vs[(seed as usize) % vs.len()];
+                let cfg = Cfg { seed: if seed % 2 == 0 { seed } else { 75 + 44 * seed }, hint: [Hint::Absent, Hint::Exact, Hint::Tenth][(seed % 3) as usize], ..Cfg::default() };
+                let vals = if seed % 4 == 0 { ValKind::Identity } else { rand_vals(&mut r, VARIANTS[v].bits) };
+                let s = scn(&mut r, "max-shard-retry", n, vals, cfg);
+                run(&mut ctx, v, s);
+            }
+        }
+    }
+
     // 4. multi-shard sizes: thread counts x peeling/memory strategy x too-small hint (sharded logics only)
     {
         let mut sizes: Vec<usize> = vec![100_000, 163_840, 200_000];
@@ -884,10 +906,11 @@ fn main() {
         );
     }
     let counters = format!(
-        "{{\"builds_ok\":{},\"builds_needing_retries\":{},\"peel_regime_builds_that_retried\":{},\"slow_convergence_builds_over_64_attempts\":{},\"abandoned_after_a_no_progress_violation\":{},\"pairs_checked\":{},\"unaligned_pairs_checked\":{}}}",
+        "{{\"builds_ok\":{},\"builds_needing_retries\":{},\"peel_regime_builds_that_retried\":{},\"sharded_builds_that_retried\":{},\"slow_convergence_builds_over_64_attempts\":{},\"abandoned_after_a_no_progress_violation\":{},\"pairs_checked\":{},\"unaligned_pairs_checked\":{}}}",
         BUILDS_OK.with(|c| c.get()),
         BUILDS_RETRIED.with(|c| c.get()),
         PEEL_RETRY.with(|c| c.get()),
+        SHARD_RETRY.with(|c| c.get()),
         BUILDS_SLOW.with(|c| c.get()),
         ABANDONED.with(|c| c.get()),
         PAIRS.with(|c| c.get()),
